@@ -117,10 +117,11 @@ Record kf := mkKf {
   kf_reset : bool;      (* C16: reset streams are not invalidated for converters *)
   kf_inflight : bool;   (* C16: streams updated while a converter job is in flight keep stale output *)
   kf_mergeconv : bool;  (* C09: converter completion does not start an eligible merge *)
-  kf_viewstore : bool   (* C16: StreamContext.Data through an old view stores output of an old version *) }.
+  kf_viewstore : bool;  (* C16: StreamContext.Data through an old view stores output of an old version *)
+  kf_detachreset : bool (* C06: detaching the last converter resets its cache without re-opening the tags that filter on stream data *) }.
 
-Definition faithful : kf := mkKf true true true true true true.
-Definition repaired : kf := mkKf false false false false false false.
+Definition faithful : kf := mkKf true true true true true true true.
+Definition repaired : kf := mkKf false false false false false false false.
 
 Record state := mkSt {
   next : N;
@@ -386,6 +387,25 @@ Definition data_tags_uncertain (s : N) (ts : tags_t) : tags_t :=
 Definition queue_matches (st : state) (cs : list N) (m : N) : state :=
   set_toconv st (fun c => if memN c cs then union (toconv st c) m else toconv st c).
 
+(* detachConverterFromTag resets the converter (drops its whole cache) when no OTHER tag that keeps it matches a stream *)
+Definition conv_matching (st : state) (n c : N) : N :=
+  fold_left (fun a nt => if negb (fst nt =? n) && tag_has_conv c (snd nt) then union a (t_m (snd nt)) else a) (tags st) 0.
+
+Definition has_data_tag (ts : tags_t) : bool := existsb (fun nt => t_live (snd nt) && d_data (t_def (snd nt))) ts.
+
+(* every tag with a data filter is evaluated again for the streams s (their output appeared / is gone) *)
+Definition reopen_data (st : state) (s : N) : state :=
+  set_masks (set_tags st (inherit (all st) (data_tags_uncertain s (tags st)))) (union (m_upd st) s) (m_rst st) (m_add st).
+
+(* repaired: a detach that reset a converter re-opens the data tags for all streams; the API call ends with
+   startTaggingJobIfNeeded *)
+Definition after_detach (k : kf) (reset : bool) (st : state) : state :=
+  if kf_detachreset k then st
+  else if reset && has_data_tag (tags st) then reopen_data st (all st) else st.
+
+Definition tag_again (k : kf) (pick : N) (st : state) : state :=
+  if kf_detachreset k then st else start_tagging pick st.
+
 (* referenced tags exist and have a smaller name (Go: exist, no self reference, no cycle) *)
 Definition refs_ok (n : N) (d : defn) (ts : tags_t) : bool :=
   forallb (fun r => (r <? n) && match tget r ts with Some _ => true | None => false end) (d_refs d).
@@ -416,7 +436,8 @@ Definition step (k : kf) (pick : N) (a : action) (st : state) : state :=
       if referenced n (tags st) then st
       else
         let st1 := fold_left (fun s c => detach s n c) (t_conv t) st in
-        set_tags st1 (tdel n (tags st1))
+        let st2 := after_detach k (existsb (fun c => is0 (conv_matching st n c)) (t_conv t)) st1 in
+        tag_again k pick (set_tags st2 (tdel n (tags st2)))
     end
   | AQuery n d =>
     match tget n (tags st) with
@@ -469,8 +490,9 @@ Definition step (k : kf) (pick : N) (a : action) (st : state) : state :=
       (* the request is validated before anything is changed *)
       if forallb (fun c => tag_has_conv c t || (memN c (convs st) && negb (complex (t_def t)))) cs then
         let st1 := fold_left (fun s c => if memN c cs then s else detach s n c) (t_conv t) st in
+        let st2 := after_detach k (existsb (fun c => negb (memN c cs) && is0 (conv_matching st n c)) (t_conv t)) st1 in
         (* after the validation no attach can fail (Go returns before startConverterJobIfNeeded only on such an error) *)
-        start_converter (fst (attach_all st1 n cs))
+        start_converter (tag_again k pick (fst (attach_all st2 n cs)))
       else st
     end
   | ABodyImport r =>
